@@ -1301,6 +1301,27 @@ class Message(ABC):
 
         return value
 
+    def _wire_type_fits(
+        self, wire_type: int, meta: FieldMetadata, field_name: str
+    ) -> bool:
+        """Whether a field occurrence with this wire type can encode the field."""
+        if meta.proto_type in WIRE_VARINT_TYPES:
+            expected = WIRE_VARINT
+        elif meta.proto_type in WIRE_FIXED_32_TYPES:
+            expected = WIRE_FIXED_32
+        elif meta.proto_type in WIRE_FIXED_64_TYPES:
+            expected = WIRE_FIXED_64
+        else:
+            expected = WIRE_LEN_DELIM
+        if wire_type == expected:
+            return True
+        # packed encoding of a repeated scalar field
+        return (
+            wire_type == WIRE_LEN_DELIM
+            and meta.proto_type in PACKED_TYPES
+            and self._betterproto.default_gen[field_name] is list
+        )
+
     def _include_default_value_for_oneof(
         self, field_name: str, meta: FieldMetadata
     ) -> bool:
@@ -1346,6 +1367,12 @@ class Message(ABC):
                 continue
 
             meta = proto_meta.meta_by_field_name[field_name]
+
+            if not self._wire_type_fits(parsed.wire_type, meta, field_name):
+                # Not an encoding of this field's declared type: keep it as an
+                # unknown field instead of mis-decoding it into the field.
+                self._unknown_fields += parsed.raw
+                continue
 
             value: Any
             if parsed.wire_type == WIRE_LEN_DELIM and meta.proto_type in PACKED_TYPES:
